@@ -147,6 +147,17 @@ Theorem C20_late_watcher_equals_snapshot : forall pan cats pre post sc cfg n,
 Proof. exact late_watcher_equals_snapshot. Qed.
 Print Assumptions C20_late_watcher_equals_snapshot.
 
+(** the Apply API of TrafficController (ApplyTrafficGate / ApplyPipeline / DeleteTrafficGate /
+    DeletePipeline) driven by a reconciling caller (which replaces, not updates, an object whose kind
+    changes): for every sequence of wanted specs of a name and every panic oracle the calls are the
+    word of the same automaton - in particular an unchanged re-apply touches nothing and the
+    predecessor passed to Inherit / the object closed is the live generation *)
+Theorem C20_apply_exactly_once : forall pan n news,
+  scalls (snd (apply_exec pan 0 n news ((None, None), []))) = fst (spec_log 0 n None news) /\
+  ap_ent (fst (apply_exec pan 0 n news ((None, None), []))) = snd (spec_log 0 n None news).
+Proof. exact apply_exactly_once. Qed.
+Print Assumptions C20_apply_exactly_once.
+
 (** non-vacuity: a concrete two-name, five-snapshot run with a firing panic oracle satisfies the
     hypotheses and produces a non-trivial log *)
 Example C20_nonvacuous :
